@@ -2,13 +2,13 @@
 from . import scen
 
 
-def scripted_jobs(prop, oracle, quick_names, tier, seed, extra=None, generated_kinds=None):
+def scripted_jobs(prop, oracle, quick_names, tier, seed, extra=None, generated_kinds=None, error_scripts=True):
     extra = dict(extra or {})
     jobs = []
 
     def add(n, **kw):
         cfg = dict(extra, oracles=(oracle,), seed=seed)
-        if generated_kinds and n in ("cancel_par", "par_block", "seq_block"):
+        if generated_kinds and n in ("cancel_par", "seq_block"):
             cfg["kinds"] = generated_kinds
         cfg.update(kw)
         jobs.append(("props.flow", "run_scenario", (n, cfg, prop)))
@@ -20,7 +20,15 @@ def scripted_jobs(prop, oracle, quick_names, tier, seed, extra=None, generated_k
             add(n, policy="lifo", k=1, targets="all", max_paths=400)
         for i in range(4):
             add("two_steps", policy="fifo", k=3, kinds=["Next", "Back", "Cancel", "Error"], targets="acts", part=(i, 4), max_paths=1500)
-        bounds = dict(scenarios=quick_names, script_len=2, deep_script="two_steps: 3 actions from {complete, back, cancel, error}", action_kinds=10,
+        # every other hand-written skeleton once, answered to the end without scripted actions (cheap breadth: needs / else / nesting / hooks / env ...)
+        for n in (scen.flow_names() if error_scripts else ()):   # (C05's oracle only fires on scripted actions)
+            if n not in quick_names and n != "two_steps":
+                add(n, policy="fifo", k=0, max_paths=200)
+                add(n, policy="lifo", k=0, max_paths=200)
+        # one or two client errors with codes from {e1, e2} on skeletons with several catch rules (the scripted actions above always use e1)
+        for n in (("catch_two_codes", "catch_all_and_code", "catch_in_catch", "catch_nomatch_then_step") if error_scripts else ()):
+            add(n, policy="fifo", k=0, error_script=True, errors=2, max_paths=400)
+        bounds = dict(scenarios=quick_names, breadth="every other skeleton of scen.flow_names() answered to the end (no scripted action), FIFO and LIFO", script_len=2, error_scripts="1-2 client errors, codes e1/e2, on 4 skeletons with several catch rules", deep_script="two_steps: 3 actions from {complete, back, cancel, error}", action_kinds=10,
                       targets="every act task (fifo runs) / every task (lifo runs, 1 action)", queue="FIFO, LIFO")
     else:
         names = scen.flow_names()
@@ -34,7 +42,10 @@ def scripted_jobs(prop, oracle, quick_names, tier, seed, extra=None, generated_k
                 add(n, policy="fifo", k=3, targets="acts", part=(i, 16), max_paths=500)
         for i in range(8):
             add("two_steps", policy="fifo", k=4, kinds=["Next", "Back", "Cancel", "Error", "Skip"], targets="acts", part=(i, 8), max_paths=4000)
-        bounds = dict(scenarios=names, script_len="2 on every scenario; 3 on seq2 and catch_act (capped at 16 x 500 paths each, cap hits are listed as inconclusive)",
+        for n in (("catch_two_codes", "catch_all_and_code", "catch_in_catch", "catch_nomatch_then_step", "catch_act", "catch_step", "catch_multi_step", "catch_nested_par", "catch_outer_step_branch")
+                  if error_scripts else ()):
+            add(n, policy="explore", k=0, error_script=True, errors=2, answer_choice=True, max_paths=3000)
+        bounds = dict(scenarios=names, error_scripts="1-2 client errors, codes e1/e2, on 9 catch skeletons, every order", script_len="2 on every scenario; 3 on seq2 and catch_act (capped at 16 x 500 paths each, cap hits are listed as inconclusive)",
                       deep_script="two_steps: 4 actions from {complete, back, cancel, error, skip}", action_kinds=10,
                       targets="every act task (fifo / explore runs) / every task (lifo runs)", queue="FIFO, LIFO, and every service order with one scripted action")
     return jobs, bounds
